@@ -81,6 +81,12 @@ pub struct Gen {
     /// 0x3FFFFF, 16-bit/20-bit/32-bit edges, mid-range and full-range random), still unique
     pub scatter: Option<u64>,
     used_ids: std::collections::HashSet<u32>,
+    /// probability (in 1/8) that an id operand names an id that occurred before (a result id defined earlier,
+    /// or an id mentioned by an earlier operand) instead of a fresh one: def-use links, repeated operands and
+    /// - through `inst` giving a mentioned id to a later result - uses before the definition
+    pub link_8: u32,
+    defined: Vec<u32>,
+    mentioned: Vec<u32>,
 }
 
 pub fn interesting_ids() -> &'static Vec<u32> {
@@ -104,7 +110,7 @@ pub fn interesting_ids() -> &'static Vec<u32> {
 
 impl Gen {
     pub fn new(start_id: u32) -> Gen {
-        Gen { next_id: start_id, types: TypeModel::new(), num_types: vec![], typed_values: vec![], lit: LitStyle::Marker, forces: vec![], max_variadic: 3, force_string: None, param_free: false, scatter: None, used_ids: Default::default() }
+        Gen { next_id: start_id, types: TypeModel::new(), num_types: vec![], typed_values: vec![], lit: LitStyle::Marker, forces: vec![], max_variadic: 3, force_string: None, param_free: false, scatter: None, used_ids: Default::default(), link_8: 0, defined: vec![], mentioned: vec![] }
     }
     pub fn fresh(&mut self) -> u32 {
         if let Some(state) = self.scatter {
@@ -149,6 +155,28 @@ impl Gen {
     /// values and ranges, or sequential starting just below an interesting value (so that consecutive
     /// ids cross it, as a Builder's counter would).
     pub fn with_id_policy(rng: &mut Rng) -> Gen {
+        let mut g = Gen::with_id_policy_unlinked(rng);
+        g.link_8 = *rng.pick(&[0u32, 0, 3, 6]);
+        g
+    }
+    /// An id operand: fresh, or (see `link_8`) one that occurred before.
+    fn id_operand(&mut self, rng: &mut Rng) -> u32 {
+        if self.link_8 > 0 && (rng.below(8) as u32) < self.link_8 {
+            let from_def = !self.defined.is_empty() && (self.mentioned.is_empty() || rng.chance(2, 3));
+            if from_def {
+                return *rng.pick(&self.defined);
+            }
+            if !self.mentioned.is_empty() {
+                return *rng.pick(&self.mentioned);
+            }
+        }
+        let id = self.fresh();
+        if self.link_8 > 0 && self.mentioned.len() < 64 {
+            self.mentioned.push(id);
+        }
+        id
+    }
+    fn with_id_policy_unlinked(rng: &mut Rng) -> Gen {
         match rng.below(3) {
             0 => Gen::new(1000),
             1 => {
@@ -208,6 +236,11 @@ impl Gen {
     /// Records an instruction in the generator's own type model (call for every emitted instruction).
     pub fn observe(&mut self, inst: &AInst) {
         self.types.observe(inst);
+        if let Some(r) = inst.rid {
+            if self.link_8 > 0 && self.defined.len() < 512 {
+                self.defined.push(r);
+            }
+        }
         if let (Some(r), Some(_t)) = (inst.rid, inst.rtype) {
             if let Some(ty) = self.types.get(r) {
                 self.typed_values.push((r, ty));
@@ -286,7 +319,10 @@ impl Gen {
         let mut out = vec![];
         match k {
             K::IdResultType | K::IdResult => return None,
-            K::IdRef | K::IdScope | K::IdMemorySemantics => out.push(AOp::w(k, self.fresh())),
+            K::IdRef | K::IdScope | K::IdMemorySemantics => {
+                let id = self.id_operand(rng);
+                out.push(AOp::w(k, id))
+            }
             K::LiteralInteger | K::LiteralFloat => {
                 let v = self.lit32(rng);
                 out.push(AOp::w(k, v))
@@ -417,7 +453,17 @@ impl Gen {
         } else {
             None
         };
-        let rid = if has_rid { Some(self.fresh()) } else { None };
+        let rid = if has_rid {
+            // now and then the definition of an id that earlier operands already mentioned (use before definition)
+            Some(if self.link_8 > 0 && !self.mentioned.is_empty() && rng.chance(1, 12) {
+                let i = rng.below(self.mentioned.len());
+                self.mentioned.swap_remove(i)
+            } else {
+                self.fresh()
+            })
+        } else {
+            None
+        };
         let mut shell = AInst::new(ri.opcode, rtype, rid, vec![]);
         if ri.opname == "Switch" {
             // choose the selector among typed values so that 64-bit case literals occur
